@@ -371,7 +371,12 @@ func (c12) Gen(r *Rand, i int, tier string) Sx {
 		}
 		hs := []Sx{}
 		for k := 0; k < nh; k++ {
-			hs = append(hs, AU(c12Hash(r)))
+			h := c12Hash(r)
+			hs = append(hs, AU(h))
+			if r.Chance(30) { // and a neighbour differing in one hex digit of the leading 8 bytes
+				hs = append(hs, AU(h^uint64(1+r.Intn(15))<<uint(4*r.Intn(16))))
+				k++
+			}
 		}
 		if n >= 2 && small {
 			for k := 0; k < 2; k++ {
@@ -391,6 +396,15 @@ func (c12) Gen(r *Rand, i int, tier string) Sx {
 		var h uint64
 		if len(hashes) > 0 && r.Chance(35) {
 			h = hashes[r.Intn(len(hashes))] // same leading hash bytes, other identity/instance
+		} else if len(hashes) > 0 && r.Chance(40) {
+			// a neighbour: one hex digit (or one bit) of the leading 8 bytes differs - routing that
+			// keeps state between lookups (a cache keyed by part of the hash) confuses such pairs
+			h = hashes[r.Intn(len(hashes))]
+			if r.Bool() {
+				h ^= uint64(1+r.Intn(15)) << uint(4*r.Intn(16))
+			} else {
+				h ^= uint64(1) << uint(r.Intn(64))
+			}
 		} else {
 			h = c12Hash(r)
 		}
